@@ -231,7 +231,7 @@ def run(rep):
     ]
     findings = common.open_findings(PID)
     devs = {f["id"]: f["deviation"] for f in findings}
-    plan = [("mf", "ABC", 2), ("mfg", "AB", 4), ("mgh", "AB", 4), ("mfe", "A", 4)] if quick else \
+    plan = [("mf", "ABC", 2), ("mfg", "AB", 4), ("mgh", "A", 4), ("mfe", "A", 4)] if quick else \
            [("m", "ABC", 1), ("mf", "ABC", 2), ("mfg", "AB", 6), ("mgh", "AB", 6), ("mfe", "AB", 8),
             ("mfgh", "A", 8), ("mfeg", "A", 12), ("mfgk", "A", 8)]
     if os.environ.get("VT_C25_PLAN"):      # development aid: "mf:AB:2,mfg:A:3"
